@@ -1,0 +1,66 @@
+//go:build verif
+
+package federation
+
+import (
+	"sort"
+	"sync/atomic"
+
+	"github.com/DrmagicE/gmqtt"
+	"github.com/DrmagicE/gmqtt/persistence/subscription"
+)
+
+var verifAppliedFn atomic.Value // func(local, from string, ev *Event)
+
+// SetVerifEventApplied installs an observer that is called for every event a node applies
+// (after duplicate suppression), with the applying node's name and the emitting node's name.
+func SetVerifEventApplied(f func(local string, from string, ev *Event)) {
+	if f == nil {
+		f = func(string, string, *Event) {}
+	}
+	verifAppliedFn.Store(f)
+}
+
+func verifEventApplied(local string, from string, ev *Event) {
+	if f, ok := verifAppliedFn.Load().(func(string, string, *Event)); ok {
+		f(local, from, ev)
+	}
+}
+
+// VerifFedView returns the (full) topic filters this node believes the given peer node subscribes to.
+func (f *Federation) VerifFedView(node string) []string {
+	var out []string
+	f.fedSubStore.Iterate(func(clientID string, sub *gmqtt.Subscription) bool {
+		out = append(out, sub.GetFullTopicName())
+		return true
+	}, subscription.IterationOptions{Type: subscription.TypeAll, ClientID: node})
+	sort.Strings(out)
+	return out
+}
+
+// VerifLocalTopics returns the topic filters that have at least one local subscriber.
+func (f *Federation) VerifLocalTopics() []string {
+	f.localSubStore.Lock()
+	defer f.localSubStore.Unlock()
+	out := make([]string, 0, len(f.localSubStore.topics))
+	for k := range f.localSubStore.topics {
+		out = append(out, k)
+	}
+	sort.Strings(out)
+	return out
+}
+
+// VerifPeers returns the names of the peers this node currently knows.
+func (f *Federation) VerifPeers() []string {
+	f.memberMu.Lock()
+	defer f.memberMu.Unlock()
+	out := make([]string, 0, len(f.peers))
+	for k := range f.peers {
+		out = append(out, k)
+	}
+	sort.Strings(out)
+	return out
+}
+
+// VerifNodeName returns the node name.
+func (f *Federation) VerifNodeName() string { return f.nodeName }
